@@ -25,6 +25,7 @@ MODULES = {
     "model_c16": ("src/lib.rs", K / "model_c16.rs"),
     "registry_c06": ("src/registry.rs", K / "registry_c06.rs"),
     "vec_c05": ("src/vec.rs", K / "vec_c05.rs"),
+    "desc_c15": ("src/desc.rs", K / "desc_c15.rs"),
     "desc_c09": ("src/desc.rs", K / "desc_c09.rs"),
     "atomic_c01": ("src/atomic64.rs", K / "atomic_c01.rs"),
     "counter_c01": ("src/counter.rs", K / "counter_c01.rs"),
@@ -182,6 +183,16 @@ PLAN = {
         verus=[],
         functions=[],
         assumptions=[MAPS_ASSUMPTION, FMT_ASSUMPTION, "collectors are harness structs with literal descriptors (ids and dimension hashes symbolic over all u64, names from {\"\", \"a\"}); that descriptor identity is structural (id/dim_hash are faithful hashes of name, const-label values, help and label names) is C15", "no accidental 64-bit collision between a collector id (wrapping sum of descriptor ids) and an unrelated registered collector id"],
+    ),
+    "C15": dict(
+        title="Descriptor identity is structural",
+        level="proof",
+        maps=True,
+        modules=["desc_c15"],
+        crate_modules=["__vrec"],
+        verus=["c05_frame_injective.rs"],
+        functions=[],
+        assumptions=[MAPS_ASSUMPTION, FMT_ASSUMPTION, SORT_ASSUMPTION, "the real FNV-1a hasher is executed; the harnesses compare Desc.id / Desc.dim_hash with FNV-1a of the framed streams (fq_name, const values / help, sorted '$'-prefixed variable names and const names, each followed by 0xFF); 'equal hash <=> equal content' then follows from the Verus framing lemma and A1 (no 64-bit collision; the property itself is stated up to collisions)", "BOUND: one const label (two const labels did not finish under CBMC in 15 min even on concrete input), so independence of the const-label supply/iteration order is NOT decided by a harness; it rests on the assumed contracts of BTreeSet (sorted iteration) and slice::sort", "UTF-8 strings never contain the separator byte 0xFF (precondition of the injectivity lemma)"],
     ),
     "C16": dict(
         title="Exposition does not depend on the protobuf feature",
